@@ -1193,23 +1193,23 @@ ASSUMPTIONS = [
     "scheduler='sync'; shuffle_method None resolves to the disk shuffle here; the distributed/p2p shuffle is not reachable",
     "transform/shift get meta= derived from the pandas result (name, dtype / empty frame), as a user would pass it",
 ]
-BUDGET = {"quick": 75, "thorough": 900}
+BUDGET = {"quick": 150, "thorough": 1500}
 FLOORS = {
     "quick": {"evaluations": 2600, "distinct_nontrivial": 1800, "max_skipped_fraction": 0.3,
               "counters": {"compared": 2400, "cmp_ordered": 280, "cmp_keyed_multiset": 2100, "plan_shuffle": 1100,
                            "plan_no_shuffle": 1200, "order_dependent_main": 330, "order_dependent_after_shuffle": 320,
                            "na_key_cases": 700, "categorical_key_cases": 250, "empty_partition_cases": 1500},
               "sets": {"programs": 2000, "plans": 120}},
-    "thorough": {"evaluations": 28000, "distinct_nontrivial": 20000, "max_skipped_fraction": 0.3,
-                 "counters": {"compared": 26000, "cmp_ordered": 3000, "cmp_keyed_multiset": 22000, "plan_shuffle": 12000,
-                              "plan_no_shuffle": 13000, "order_dependent_main": 3500, "order_dependent_after_shuffle": 3500,
-                              "na_key_cases": 8000, "categorical_key_cases": 3000, "empty_partition_cases": 9000},
-                 "sets": {"programs": 20000, "plans": 300}},
+    "thorough": {"evaluations": 30000, "distinct_nontrivial": 22000, "max_skipped_fraction": 0.3,
+                 "counters": {"compared": 26000, "cmp_ordered": 4400, "cmp_keyed_multiset": 22000, "plan_shuffle": 12000,
+                              "plan_no_shuffle": 14500, "order_dependent_main": 4400, "order_dependent_after_shuffle": 3800,
+                              "na_key_cases": 7800, "categorical_key_cases": 4000, "empty_partition_cases": 5900},
+                 "sets": {"programs": 25000, "plans": 310}},
 }
 EXHAUSTIVE_SPACE = {
     "quick": "(A) 18 operations x split_out{None,1,2,3,True} x shuffle_method{None,tasks,disk} x sort{None,True,False} on one "
              "fixed frame for keys 'a' and 'n'(dropna=False) [1620 programs]; (B) edge grid 41 operation forms x 12 key kinds x "
-             "{frame with empty partitions, empty frame} x {plain, split_out=2+tasks[, split_every=8]} [~1900 programs]",
+             "{frame with empty partitions, empty frame} x {plain, split_out=2+tasks[, split_every=8]} [1896 programs]",
     "thorough": "as quick, (A) additionally for keys ['a','b'], 'k'(observed=False), 'n', Series a%2 [4860 programs]",
 }
 CASE_TIMEOUT = 120
@@ -1228,6 +1228,14 @@ TECHNIQUE = ("runtime monitoring: differential oracle against pandas on every co
 
 # labels observed on the unchanged tree (quick seeds 0,1,2,7,12345 + thorough); see findings_proposed/C38.md
 PENDING = {
+    'agg-any:cat-key&observed=False&multi-key:IndexError@dataframe/dask_expr/_groupby.py:_median_groupby_aggregate':
+        'same mechanism inside median',
+    'agg-any:cat-key&observed=False&multi-key:IndexError@dataframe/groupby.py:_apply_chunk':
+        "several keys incl. a categorical one, observed=False: the chunk of a partition raises 'cannot do a non-empty take from an empty axes'",
+    'agg-any:cat-key&observed=False&multi-key:IndexError@dataframe/groupby.py:_apply_func_to_column':
+        'same mechanism inside agg()',
+    'agg-any:cat-key&observed=False&multi-key:IndexError@dataframe/groupby.py:_var_chunk':
+        'same mechanism inside var/std',
     'agg-any:cat-key&observed=False&shuffle:groups-duplicated':
         'categorical key, observed=False, shuffle (split_out>1): every output partition re-expands all categories, groups come back several times',
     'agg-any:key-has-0.0-and-negative-0.0&shuffle:groups-duplicated':
@@ -1246,8 +1254,10 @@ PENDING = {
         "SeriesGroupBy.agg([.., 'median']) returns columns (col, func) instead of func",
     'agg:agg[median]&sort=True:KeyError@_expr.py:__new__':
         "agg containing median with sort=True: ShuffleReduce builds SortValues with wrong operands (KeyError 'options')",
-    'agg:cat-key&observed=False:IndexError@dataframe/groupby.py:_apply_chunk':
-        "several keys incl. a categorical one, observed=False: chunk raises 'cannot do a non-empty take from an empty axes'",
+    'agg:cat-key&observed=False:IndexError@dataframe/groupby.py:_apply_func_to_column':
+        'agg with categorical key observed=False on a partition without rows for a category',
+    'agg:cat-key&observed=False:dtype':
+        'agg with categorical key observed=False: dtype of a result column differs (unobserved groups)',
     'agg:cat-key&observed=False:length':
         'several keys incl. a categorical one, observed=False, agg with median: set of unobserved combinations differs from pandas',
     'agg:cat-key&observed=False:values':
@@ -1280,8 +1290,6 @@ PENDING = {
         'ffill/bfill run on rows in shuffled order (no order restoration at all)',
     'ffill-bfill:empty-frame:dtype':
         'ffill of a whole empty frame: int column comes back float64',
-    'ffill-bfill:nullable-int-key&dropna=False:TypeError@dataframe/groupby.py:_groupby_slice_transform':
-        "groupby('n', dropna=False).ffill(): slow-path transform with <NA> group name, 'boolean value of NA is ambiguous'",
     'first-last:after-shuffle:group-spans-partitions:values':
         'first/last with split_out>1: per-partition results are hash-shuffled, the first/last arriving chunk wins',
     'idxmin-idxmax:empty-frame:ValueError@utils.py:__call__':
@@ -1302,6 +1310,8 @@ PENDING = {
         'median(split_out=1) with sort=True is not sorted',
     'median:split_every&series-or-index-key:length':
         'Median.npartitions = npartitions // split_every while the frame keeps its partitions: rows silently lost',
+    'median:split_every>npartitions:AssertionError@dataframe/dask_expr/_repartition.py:_partitions_boundaries':
+        'median(split_every>npartitions, split_out=k): npartitions 0 reaches Repartition',
     'median:split_every>npartitions:ZeroDivisionError@dataframe/dask_expr/_repartition.py:_nsplits':
         'median(split_every=8) on fewer partitions: npartitions becomes 0',
     'nunique:cat-key&observed=False:length':
@@ -1324,14 +1334,16 @@ PENDING = {
         'rows with key 0.0 and -0.0 land in different partitions: shifted separately',
     'shift:series-key&duplicate-index-labels:ValueError@dataframe/groupby.py:_groupby_slice_shift':
         "shift by a Series key on duplicate index labels: sort_index + Series grouper 'cannot reindex on an axis with duplicate labels'",
-    'sum:cat-key&observed=False:IndexError@dataframe/groupby.py:_apply_chunk':
-        'several keys incl. categorical, observed=False: chunk raises on an empty partition',
     'transform-like:na-keys&dropna!=False:IndexError@dataframe/groupby.py:_groupby_slice_transform':
         'transform on a shuffled partition that holds NA keys only',
     'transform-like:na-keys&dropna!=False:ValueError@dataframe/groupby.py:_groupby_slice_transform':
         "ffill/bfill/transform on a shuffled partition that holds NA keys only: 'No objects to concatenate'",
     'transform-like:na-keys&dropna!=False:rows-with-NA-key-missing':
         'transform/ffill: rows whose key is NA are dropped, pandas returns them as NaN',
+    'transform-like:nullable-int-key&dropna=False:TypeError@dataframe/groupby.py:_groupby_slice_transform':
+        "groupby('n', dropna=False).ffill()/bfill()/transform(f): slow-path transform with <NA> group name, 'boolean value of NA is ambiguous'",
+    'transform:cat-key&observed=False:TypeError@dataframe/backends.py:_union_categoricals_wrapper':
+        'transform with categorical key observed=False: concat of partitions with rows produced by g.apply on empty partitions',
     'transform:cat-key&observed=False:index-names':
         'transform with categorical key observed=False: g.apply on empty partitions adds rows, index name lost',
     'transform:cat-key&observed=False:length':
@@ -1344,17 +1356,29 @@ PENDING = {
         'value_counts with categorical key observed=False on an empty partition',
     'value_counts:cat-key&observed=False:values':
         'value_counts with categorical key observed=False: zero-count rows differ',
-    'value_counts:empty-frame:KeyError@base.py:compute':
-        'value_counts of an empty frame with split_out=True',
+    'value_counts:empty-frame:dtype':
+        'value_counts of an empty frame: float64 instead of int64',
+    'value_counts:empty-frame:name':
+        "value_counts of an empty frame: Series name None instead of 'count'",
+    'value_counts:empty-result:dtype':
+        'value_counts whose result is empty (column all NA): float64 instead of int64',
+    'value_counts:empty-result:name':
+        "value_counts whose result is empty: Series name None instead of 'count'",
     'value_counts:key-has-0.0-and-negative-0.0:length':
         'value_counts: 0.0 and -0.0 keys merged/split differently from pandas',
     'value_counts:multi-key&dropna=False:ValueError@dataframe/groupby.py:_value_counts_aggregate':
         "groupby([..], dropna=False)[col].value_counts(): 'Values not found in passed level' (DESIGN 6 #19)",
     'value_counts:multi-key&partition-without-non-NA-key:ValueError@dataframe/groupby.py:_groupby_aggregate':
         'value_counts, several keys, a partition that is empty / holds NA keys only',
+    'value_counts:na-keys&dropna=False:NA-group-missing':
+        'value_counts with NaN key, dropna=False, partition holding NA keys only: the NA group is lost',
+    'value_counts:na-keys&dropna=False:length':
+        'value_counts with NaN key and dropna=False: NaN groups of different partitions are not merged',
     'value_counts:na-keys&dropna=False:values':
         'value_counts with NaN key and dropna=False: counts of the NaN group not merged across partitions',
-    'value_counts:partition-without-non-NA-key&split_out>1:KeyError@dataframe/dask_expr/_shuffle.py:operation':
+    'value_counts:partition-without-non-NA-key&shuffle:KeyError@base.py:compute':
+        'same root cause, raised when the graph is materialised',
+    'value_counts:partition-without-non-NA-key&shuffle:KeyError@dataframe/dask_expr/_shuffle.py:operation':
         '_value_counts returns an index-less empty Series for a partition that is empty / NA-keys only; the shuffle cannot find the key column',
     'value_counts:partition-without-non-NA-key:AttributeError@dataframe/groupby.py:_value_counts_aggregate':
         "same root cause without shuffle: 'RangeIndex' object has no attribute 'levels'",
